@@ -1,6 +1,7 @@
 (* C17 property theorems. Nothing but statements closed by `exact lemma` and Print Assumptions. *)
 From Coq Require Import NArith List Bool.
 From OG Require Import C17.Model C17.Proofs C17.Refine C17.Corr C17.Scope C17.Gen_Consts C17.Crash.
+From OG Require Import C17.Inv C17.Search C17.Read C17.Step C17.SaveStep.
 Import ListNotations.
 Open Scope N_scope.
 
@@ -125,3 +126,76 @@ Example C17_crash_meta_first_breaks :
             ~ inside_ok demo_st0 demo_es demo_hs None st
             /\ hs_commit (p_hs st) = 5 /\ last_of (p_log st) = 3.
 Proof. exact crash_meta_first_breaks. Qed.
+
+(* ================================================================================================================ *)
+(* THE REFINEMENT, for every history. For all layout parameters satisfying the layout inequalities and every list of
+   operations (Save, Entries, Term, CreateSnapshot, DeleteBefore, Reopen, GetMeta, full scan) whose arguments respect
+   [valid_op] in the state where they are issued:
+     - every answer of the repaired on-disk model equals the answer of the specification (error class, entries, term,
+       first and last index after the operation, hard state, snapshot);
+     - the log read back from the files (abstraction [abs]) equals the specification's state at the end.
+   The specification is told how far the store compacted at DeleteBefore / Reopen (the first index it reported).
+   [valid_op] asks (and nothing else):
+     Save     - Raft's contract for a non-empty batch: consecutive indexes, first index >= 1 and inside
+                [first index, last index + 1] of the log (any start on an empty log), every payload fits in a fresh
+                file (data_off + 4 + len <= max_size);
+     Entries  - hi >= 1 (hi = 0 is not proved; raft never asks it);
+     full scan- the total protobuf size of the log is below 2^64 (the scan of the model uses a uint64 size limit);
+     all other operations - nothing (all arguments).
+   Proof: invariant [dinv] (every file = good live rows + dead rows; files ordered by first index, strictly
+   consecutive indexes without gaps; offsets increasing and inside the file; cached length of slot 0 agrees with the
+   file) preserved by every operation (Step.v, SaveStep.v); slot search correctness (Search.v); read path
+   allEntries = limit_size of the slice (Read.v). *)
+Theorem C17_refines : forall (P : params) (ops : list sop),
+  wf_params P = true ->
+  let out := outputs_disk VRepaired P ops (empty_disk P) in
+  valid_spec P ops (map r_first out) empty_alog ->
+  out = outputs_spec ops (map r_first out) empty_alog
+  /\ abs (run_disk VRepaired P ops (empty_disk P)) = run_spec ops (map r_first out) empty_alog.
+Proof. intros P ops HP. exact (refines_from P HP ops (empty_disk P) 1 [] (empty_disk_inv P)). Qed.
+Print Assumptions C17_refines.
+
+(* the hypotheses are satisfiable: a history with rotation (4 slots per file), a conflict into the rotated file, a
+   snapshot, a prefix deletion, reopen, size-limited reads, full scan *)
+Definition demo_params := mkparams 4 160 4096.
+Definition demo_ops : list sop :=
+  [ Save (seg 1 6 1 0 5 7) (Some (mkhs 1 1 6)) None; Save (seg 3 1 2 0 5 900) None (Some (mksnap 2 1 (Some [1;2]) 9));
+    Entries 1 3 1000; Term 2; CreateSnap 3 None 4; DeleteBefore 3; Reopen; Entries 2 4 20; Sum; GetMeta ].
+Example C17_refines_hyp_satisfiable :
+  wf_params demo_params = true /\
+  let out := outputs_disk VRepaired demo_params demo_ops (empty_disk demo_params) in
+  valid_spec demo_params demo_ops (map r_first out) empty_alog.
+Proof.
+  split; [reflexivity|]. vm_compute.
+  repeat match goal with
+         | |- _ /\ _ => split
+         | |- Forall _ _ => constructor
+         | |- _ \/ _ => first [left; reflexivity | right]
+         | |- True => exact I
+         | |- _ = _ => reflexivity
+         | |- _ -> False => let H := fresh in intro H; discriminate H
+         end.
+Qed.
+
+(* one step, from any state satisfying the invariant: invariant kept, same abstract state, same answer *)
+Theorem C17_step_refines : forall P, wf_params P = true -> forall o d i0 Ac,
+  dinv P i0 d Ac -> valid_op P o (abs d) -> step_ok P o d.
+Proof. exact step_all. Qed.
+Print Assumptions C17_step_refines.
+
+(* pieces worth naming *)
+Theorem C17_slot_search_old : forall P d i0 Ac, dinv P i0 d Ac -> forall pre f post A D i,
+  d_files d = pre ++ f :: post -> fview P f A D ->
+  i0 + flen pre <= i -> i < i0 + flen pre + N.of_nat (length A) ->
+  slot_ge P d i = (InOld (length pre), Some (i - (i0 + flen pre))).
+Proof. exact slot_ge_old. Qed.
+Theorem C17_read_path : forall P lo hi max d i0 Ac,
+  dinv P i0 d Ac -> 1 <= hi -> i0 <= lo ->
+  exists d',
+    all_entries P lo hi max d = (rev (snd (take_scan hi max 0 [] (skipn (N.to_nat (lo - i0)) (log_of d)))), d')
+    /\ dinv P i0 d' Ac /\ log_of d' = log_of d /\ d_meta d' = d_meta d /\ d_next d' = d_next d.
+Proof. exact all_entries_spec. Qed.
+Theorem C17_read_limit : forall hi max S i,
+  consec i S -> rev (snd (take_scan hi max 0 [] S)) = limit_size max (firstn (N.to_nat (hi - i)) S).
+Proof. exact take_scan_limit. Qed.
+Print Assumptions C17_read_path.
